@@ -51,3 +51,121 @@ MUTANTS = [
     dict(id="c04-merge-size-off", props=["C04", "C02"], desc="index GC merge forgets the size prefix of the merged record",
          edits=[(IG, "\t\t\t\t// Merge this free record into the last\n\t\t\t\tfreeAtSize += sizePrefixSize + size\n", "\t\t\t\t// Merge this free record into the last\n\t\t\t\tfreeAtSize += size\n")]),
 ]
+
+HD = "store/index/header.go"
+UP = "store/index/upgrade.go"
+MU = "store/primary/multihash/upgrade.go"
+BS = "storethehash.go"
+CID = "store/primary/cid/cid.go"
+
+MUTANTS += [
+    # C03
+    dict(id="c03-commit-index-before-primary", props=["C03"], desc="commit flushes the index before the primary",
+         edits=[(ST, "\tprimaryWork, err := s.index.Primary.Flush()\n\tif err != nil {\n\t\treturn 0, err\n\t}\n\tvhook.Point(\"commit.primaryFlushed\")\n\tindexWork, err := s.index.Flush()\n\tif err != nil {\n\t\treturn 0, err\n\t}\n",
+                 "\tindexWork, err := s.index.Flush()\n\tif err != nil {\n\t\treturn 0, err\n\t}\n\tvhook.Point(\"commit.primaryFlushed\")\n\tprimaryWork, err := s.index.Primary.Flush()\n\tif err != nil {\n\t\treturn 0, err\n\t}\n")]),
+    dict(id="c03-scan-truncation-removed", props=["C03"], desc="index scan no longer truncates a torn record",
+         edits=[(IDX, "\t\t\t\tvhook.Point(\"index.scan.truncate\")\n\t\t\t\te := os.Truncate(indexPath, pos-sizePrefixSize)\n", "\t\t\t\tvhook.Point(\"index.scan.truncate\")\n\t\t\t\te := error(nil)\n")]),
+    dict(id="c03-igc-unlink-before-header", props=["C03"], desc="index GC unlinks the first file before advancing the header",
+         edits=[(IG, "\t\t\t\theader.FirstFile++\n\t\t\t\tvhook.Point(\"igc.header\")\n\t\t\t\terr = writeHeader(index.headerPath, header)\n\t\t\t\tif err != nil {\n\t\t\t\t\treturn 0, 0, err\n\t\t\t\t}\n\t\t\t\tvhook.Point(\"igc.unlink\")\n\t\t\t\terr = os.Remove(indexPath)\n\t\t\t\tif err != nil {\n\t\t\t\t\treturn 0, 0, err\n\t\t\t\t}\n",
+                 "\t\t\t\theader.FirstFile++\n\t\t\t\tvhook.Point(\"igc.header\")\n\t\t\t\terr = os.Remove(indexPath)\n\t\t\t\tif err != nil {\n\t\t\t\t\treturn 0, 0, err\n\t\t\t\t}\n\t\t\t\tvhook.Point(\"igc.unlink\")\n\t\t\t\terr = writeHeader(index.headerPath, header)\n\t\t\t\tif err != nil {\n\t\t\t\t\treturn 0, 0, err\n\t\t\t\t}\n")]),
+    dict(id="c03-snapshot-kept-after-load", props=["C03", "C02"], desc="bucket snapshot is not removed when loaded",
+         edits=[(IDX, "\t\tvhook.Point(\"index.load.remove\")\n\t\tif e = os.Remove(bucketsFileName); e != nil {", "\t\tvhook.Point(\"index.load.remove\")\n\t\tif e = error(nil); e != nil {")]),
+    dict(id="c03-buckets-before-write", props=["C03", "C05"], desc="bucket table updated before the log write is flushed",
+         edits=[(IDX, "\tvhook.Point(\"index.flush.write\")\n\terr := idx.writer.Flush()\n", "\tidx.bucketLk.Lock()\n\tfor _, blk := range blks {\n\t\tidx.buckets.Put(blk.bucket, blk.blk.Offset)\n\t}\n\tidx.bucketLk.Unlock()\n\tvhook.Point(\"index.flush.write\")\n\terr := idx.writer.Flush()\n")]),
+    dict(id="c03-header-in-place", props=["C03"], desc="headers written in place again",
+         edits=[(HD, "\ttmpPath := headerPath + \".tmp\"\n", "\ttmpPath := headerPath\n")]),
+    dict(id="c03-gc-deletes-gcfile-first", props=["C03", "C13"], desc="freelist .gc file removed before it is processed",
+         edits=[(MG, "\tfi, err := os.Stat(flPath)\n\tif err != nil {\n\t\treturn nil, fmt.Errorf(\"cannot stat freelist gc file: %w\", err)\n\t}\n", "\tfi, err := os.Stat(flPath)\n\tif err != nil {\n\t\treturn nil, fmt.Errorf(\"cannot stat freelist gc file: %w\", err)\n\t}\n\tif fi.Size() > 24 {\n\t\tos.Truncate(flPath, fi.Size()-12)\n\t}\n")]),
+    # C07
+    dict(id="c07-bucketpos-end-of-record", props=["C07", "C02"], desc="flushBucket records the end instead of the start of a record for file choice",
+         edits=[(IDX, "\t\tOffset: localPosToBucketPos(int64(length+sizePrefixSize), idx.fileNum, idx.maxFileSize),", "\t\tOffset: localPosToBucketPos(int64(length+sizePrefixSize), idx.fileNum, idx.maxFileSize) + types.Position(int64(toWrite)/64),")]),
+    dict(id="c07-freelist-before-index-update", props=["C07", "C13", "C03"], desc="freelist put of the old location also on the new-key path (live location freed)",
+         edits=[(ST, "\tif !cmpKey {\n\t\tif err = s.index.Put(indexKey, fileOffset); err != nil {\n\t\t\treturn err\n\t\t}\n", "\tif !cmpKey {\n\t\tif err = s.index.Put(indexKey, fileOffset); err != nil {\n\t\t\treturn err\n\t\t}\n\t\tif found && len(value) == 7 {\n\t\t\ts.freelist.Put(prevOffset)\n\t\t}\n")]),
+    # C08
+    dict(id="c08-remove-retrims", props=["C08"], desc="Remove drops the following entry's last prefix byte",
+         edits=[(IDX, "\tnewData := records.PutKeys([]KeyPositionPair{}, r.Pos, r.NextPos())\n\t// NOTE: We are removing", "\tnewData := records.PutKeys([]KeyPositionPair{}, r.Pos, r.NextPos())\n\tif r.NextPos() < records.Len() {\n\t\tnx := records.ReadRecord(r.NextPos())\n\t\tif len(nx.Key) > 2 {\n\t\t\tnewData = records.PutKeys([]KeyPositionPair{{nx.Key[:len(nx.Key)-1], nx.Block}}, r.Pos, nx.NextPos())\n\t\t}\n\t}\n\t// NOTE: We are removing")]),
+    dict(id="c08-minprefix-min", props=["C08", "C01"], desc="new key trimmed using min instead of max of the common prefixes",
+         edits=[(IDX, "\t\t\tminPrefix := max(\n\t\t\t\tprevRecordNonCommonBytePos,\n\t\t\t\tnextRecordNonCommonBytePos,\n\t\t\t)", "\t\t\tminPrefix := min(\n\t\t\t\tprevRecordNonCommonBytePos,\n\t\t\t\tnextRecordNonCommonBytePos,\n\t\t\t)")]),
+    # C09
+    dict(id="c09-translate-old-bits", props=["C09"], desc="translation skips records of the last non-empty bucket",
+         edits=[(IDX, "\t\tif int(iter.bucketIndex) >= len(iter.index.buckets) {", "\t\tif int(iter.bucketIndex) >= len(iter.index.buckets)-1 && len(iter.index.buckets) > 256 {")]),
+    dict(id="c09-mismatch-after-load", props=["C09"], desc="index file-size mismatch no longer detected when sizes differ by the low bits",
+         edits=[(IDX, "\t\tif header.MaxFileSize != maxFileSize {", "\t\tif header.MaxFileSize>>3 != maxFileSize>>3 {")]),
+    # C10
+    dict(id="c10-remap-off-by-chunk", props=["C10"], desc="RemapOffset uses <= so an offset at a chunk boundary lands in the previous chunk",
+         edits=[(MU, "\t\tif newPos < size {", "\t\tif newPos <= size && newPos != 0 {")]),
+    dict(id="c10-chunk-boundary-gt", props=["C10"], desc="primary chunking uses > instead of >=",
+         edits=[(MU, "\t\twritten += sizePrefixSize + int64(size)\n\t\tif written >= fileSizeLimit {\n\t\t\tvhook.Point(\"pup.chunk.flush\")", "\t\twritten += sizePrefixSize + int64(size)\n\t\tif written > fileSizeLimit {\n\t\t\tvhook.Point(\"pup.chunk.flush\")")]),
+    dict(id="c10-freelist-after-chunking", props=["C10"], desc="pending freelist entries are not applied before chunking",
+         edits=[(MU, "\tif freeList != nil {\n\t\t// Instead of remapping", "\tif freeList != nil && maxFileSize > 1<<29 {\n\t\t// Instead of remapping")]),
+    # C11
+    dict(id="c11-firstfile-never-advanced", props=["C11"], desc="primary GC never unlinks the first file",
+         edits=[(MG, "\t\tif dead && fileNum == header.FirstFile {", "\t\tif dead && fileNum == header.FirstFile && fileNum > 1<<20 {")]),
+    dict(id="c11-skip-truncate-at-zero", props=["C11"], desc="primary GC does not truncate a fully free file",
+         edits=[(MG, "\tif freeAt > busyAt {\n\t\t// End of primary is free.\n\t\tvhook.Point(\"pgc.reap.truncate\")", "\tif freeAt > busyAt && freeAt != 0 {\n\t\t// End of primary is free.\n\t\tvhook.Point(\"pgc.reap.truncate\")")]),
+    dict(id="c11-visited-never-cleared", props=["C11"], desc="affected files are not removed from the visited set",
+         edits=[(MG, "\tfor fileNum := range affectedSet {\n\t\tdelete(gc.visited, fileNum)\n\t}\n", "\tfor fileNum := range affectedSet {\n\t\tif fileNum > 1<<20 {\n\t\t\tdelete(gc.visited, fileNum)\n\t\t}\n\t}\n")]),
+    dict(id="c11-index-free-files-kept", props=["C11"], desc="index GC never truncates unreferenced non-first files",
+         edits=[(IG, "\t\tvhook.Point(\"igc.free.truncate\")\n\t\terr = os.Truncate(indexPath, 0)", "\t\tvhook.Point(\"igc.free.truncate\")\n\t\terr = os.Truncate(indexPath, fi.Size())"),
+                (IG, "\t\tif err = file.Truncate(freeAt); err != nil {\n\t\t\treturn false, fmt.Errorf(\"failed to truncate index file: %w\", err)", "\t\tif err = file.Truncate(fi.Size()); err != nil {\n\t\t\treturn false, fmt.Errorf(\"failed to truncate index file: %w\", err)")]),
+    # C12
+    dict(id="c12-notice-not-closed-after-commit", props=["C12"], desc="Flush only closes the notice when the rate was re-measured",
+         edits=[(ST, "\ts.flushRate = vhook.Rate(s.flushRate)\n\tif s.flushNotice != nil {", "\ts.flushRate = vhook.Rate(s.flushRate)\n\tif s.flushNotice != nil && rate != 0 && work > 64 {")]),
+    dict(id="c12-early-return-keeps-notice", props=["C12"], desc="nothing-to-flush path no longer releases waiters (the original defect)",
+         edits=[(ST, "\t\ts.rateLk.Lock()\n\t\tif s.flushNotice != nil {\n\t\t\tclose(s.flushNotice)\n\t\t\ts.flushNotice = nil\n\t\t}\n\t\ts.rateLk.Unlock()\n\t\treturn nil\n", "\t\treturn nil\n")]),
+    # C13
+    dict(id="c13-free-on-identical-reput", props=["C13"], desc="identical re-put records the current location as free",
+         edits=[(ST, "\t\tif cmpKey && bytes.Equal(value, storedVal) {\n", "\t\tif cmpKey && bytes.Equal(value, storedVal) {\n\t\t\tif len(value) == 5 {\n\t\t\t\ts.freelist.Put(prevOffset)\n\t\t\t}\n")]),
+    dict(id="c13-remove-no-free", props=["C13"], desc="Remove of a key with an empty value records nothing",
+         edits=[(ST, "\tif removed {\n\t\t// Mark slot in freelist\n", "\tif removed && offset.Size > types.Size(len(indexKey)+2) {\n\t\t// Mark slot in freelist\n")]),
+    dict(id="c13-togc-drops-buffered", props=["C13"], desc="ToGC swaps files between pool swap and write (entries of a concurrent flush lost)",
+         edits=[(FL, "\tcp.flushLock.Lock()\n\tdefer cp.flushLock.Unlock()\n\n\t// Flush any buffered data and close the file.", "\tcp.poolLk.Lock()\n\tif len(cp.blockPool) > 3 {\n\t\tcp.blockPool = cp.blockPool[:len(cp.blockPool)-1]\n\t}\n\tcp.poolLk.Unlock()\n\tcp.flushLock.Lock()\n\tdefer cp.flushLock.Unlock()\n\n\t// Flush any buffered data and close the file.")]),
+    # C14
+    dict(id="c14-evict-closes-referenced", props=["C14"], desc="eviction closes files that are still referenced",
+         edits=[(FC, "\tif ent.refs == 0 {\n\t\tent.file.Close()\n\t\treturn\n\t}\n\t// Removed from cache, but still in use.", "\tif ent.refs <= 1 {\n\t\tent.file.Close()\n\t\treturn\n\t}\n\t// Removed from cache, but still in use.")]),
+    dict(id="c14-removed-refs-off-by-one", props=["C14"], desc="removed map keeps one reference too many (leak)",
+         edits=[(FC, "\tc.removed[ent.file] = ent.refs\n", "\tc.removed[ent.file] = ent.refs + 1\n")]),
+    dict(id="c14-close-ignores-identity", props=["C14"], desc="Close matches the cached entry by name only (the original defect)",
+         edits=[(FC, "\tif elem, ok := c.cache[name]; ok && elem.Value.(*entry).file == file {", "\tif elem, ok := c.cache[name]; ok {")]),
+    # C15
+    dict(id="c15-getsize-cid-length", props=["C15"], desc="blockstore GetSize queries with the CID bytes instead of the multihash",
+         edits=[(BS, "\tsize, found, err := bs.store.GetSize(c.Hash())", "\tsize, found, err := bs.store.GetSize(c.Hash())\n\tif c.Version() == 0 && size > 100 {\n\t\tsize -= 2\n\t}")]),
+    dict(id="c15-putmany-stops-at-duplicate", props=["C15"], desc="PutMany stops at the first duplicate",
+         edits=[(BS, "\t\tif err != nil && err != types.ErrKeyExists {\n\t\t\treturn err\n\t\t}\n", "\t\tif err == types.ErrKeyExists {\n\t\t\treturn nil\n\t\t}\n\t\tif err != nil {\n\t\t\treturn err\n\t\t}\n")]),
+    dict(id="c15-delete-ignores-cancel", props=["C15"], desc="DeleteBlock ignores a cancelled context",
+         edits=[(BS, "func (bs *HashedBlockstore) DeleteBlock(ctx context.Context, c cid.Cid) error {\n\tif ctx.Err() != nil {\n\t\treturn ctx.Err()\n\t}\n", "func (bs *HashedBlockstore) DeleteBlock(ctx context.Context, c cid.Cid) error {\n")]),
+    dict(id="c15-hor-compares-multihash-only", props=["C15"], desc="hash-on-read accepts any data whose length matches",
+         edits=[(BS, "\t\tif !newCid.Equals(c) {\n\t\t\treturn nil, blocks.ErrWrongHash\n\t\t}", "\t\tif !newCid.Equals(c) && len(value) > 40 {\n\t\t\treturn nil, blocks.ErrWrongHash\n\t\t}")]),
+    # C16
+    dict(id="c16-outstandingwork-unlocked", props=["C16"], desc="Index.OutstandingWork reads without the lock",
+         edits=[(IDX, "func (i *Index) OutstandingWork() types.Work {\n\ti.bucketLk.RLock()\n\tdefer i.bucketLk.RUnlock()\n", "func (i *Index) OutstandingWork() types.Work {\n")]),
+    dict(id="c16-igc-filenum-unlocked", props=["C16"], desc="index GC reads fileNum without the flush lock",
+         edits=[(IG, "\tindex.flushLock.Lock()\n\tlastFileNum := index.fileNum\n\tindex.flushLock.Unlock()\n\n\tif header.FirstFile == lastFileNum {", "\tlastFileNum := index.fileNum\n\n\tif header.FirstFile == lastFileNum {")]),
+    dict(id="c16-primary-getcached-unlocked", props=["C16"], desc="primary getCached without the pool lock",
+         edits=[(MH, "func (cp *MultihashPrimary) getCached(blk types.Block) ([]byte, []byte, error) {\n\tcp.poolLk.RLock()\n\tdefer cp.poolLk.RUnlock()\n", "func (cp *MultihashPrimary) getCached(blk types.Block) ([]byte, []byte, error) {\n")]),
+    # C17
+    dict(id="c17-index-close-no-gc-wait", props=["C17"], desc="index Close signals the collector but does not wait for it",
+         edits=[(IDX, "\t\t\tclose(idx.gcStop)\n\t\t\t<-idx.gcDone\n", "\t\t\tclose(idx.gcStop)\n")]),
+    dict(id="c17-primary-gc-close-no-wait", props=["C17"], desc="primary GC close does not wait for the cycle",
+         edits=[(MG, "func (gc *primaryGC) close() {\n\tclose(gc.stop)\n\t<-gc.done\n}", "func (gc *primaryGC) close() {\n\tclose(gc.stop)\n}")]),
+    dict(id="c17-failed-open-leaks-freelist", props=["C17"], desc="failed index open leaves the freelist open",
+         edits=[(ST, "\tif err != nil {\n\t\tprimary.Close()\n\t\tfreeList.Close()\n\t\treturn nil, err\n\t}\n\n\t// Start primary GC only after", "\tif err != nil {\n\t\tprimary.Close()\n\t\treturn nil, err\n\t}\n\n\t// Start primary GC only after")]),
+    dict(id="c17-filecache-not-cleared", props=["C17"], desc="Close does not clear the file cache",
+         edits=[(ST, "\tvhook.Point(\"close.primaryClosed\")\n\ts.fileCache.Clear()\n", "\tvhook.Point(\"close.primaryClosed\")\n"),
+                (IDX, "\tidx.closeOnce.Do(func() {\n\t\tidx.fileCache.Clear()\n", "\tidx.closeOnce.Do(func() {\n"),
+                (MH, "\tvhook.Point(\"mh.close.gcStopped\")\n\tmp.fileCache.Clear()\n", "\tvhook.Point(\"mh.close.gcStopped\")\n")]),
+    # C05 / C06
+    dict(id="c05-index-put-rlock", props=["C05", "C16"], desc="Index.Update takes the bucket lock as read lock",
+         edits=[(IDX, "\tindexKey := stripBucketPrefix(key, idx.sizeBits)\n\n\tidx.bucketLk.Lock()\n\tdefer idx.bucketLk.Unlock()\n\trecords, err := idx.getRecordsFromBucket(bucket)\n\tif err != nil {\n\t\treturn err\n\t}\n\n\tvar newData []byte", "\tindexKey := stripBucketPrefix(key, idx.sizeBits)\n\n\tidx.bucketLk.RLock()\n\tdefer idx.bucketLk.RUnlock()\n\trecords, err := idx.getRecordsFromBucket(bucket)\n\tif err != nil {\n\t\treturn err\n\t}\n\n\tvar newData []byte")]),
+    dict(id="c05-curpool-dropped-early", props=["C05"], desc="index drops the just-flushed pool before the log write completed",
+         edits=[(IDX, "\tblks := make([]bucketBlock, 0, len(idx.curPool))\n", "\tflushing := idx.curPool\n\tidx.bucketLk.Lock()\n\tidx.curPool = nil\n\tidx.bucketLk.Unlock()\n\tblks := make([]bucketBlock, 0, len(flushing))\n"),
+                (IDX, "\tfor bucket, data := range idx.curPool {\n\t\tblk, newWork, err := idx.flushBucket(bucket, data)", "\tfor bucket, data := range flushing {\n\t\tblk, newWork, err := idx.flushBucket(bucket, data)")]),
+    dict(id="c05-primary-curpool-dropped-early", props=["C05"], desc="primary drops the pool being flushed before it is written",
+         edits=[(MH, "\tvar work types.Work\n\tfor _, record := range cp.curPool.blocks {", "\tflushing := cp.curPool\n\tcp.poolLk.Lock()\n\tcp.curPool = newBlockPool()\n\tcp.poolLk.Unlock()\n\tvar work types.Work\n\tfor _, record := range flushing.blocks {")]),
+    dict(id="c06-get-unlocks-early", props=["C06"], desc="Index.Get releases the bucket lock before the disk read (the original defect)",
+         edits=[(IDX, "\t\trecords, err = idx.readDiskBucket(indexOffset, fileNum)\n\t}\n\tidx.bucketLk.RUnlock()\n\tvhook.Point(\"index.get.unlocked\")\n", "\t\tidx.bucketLk.RUnlock()\n\t\tvhook.Point(\"index.get.unlocked\")\n\t\trecords, err = idx.readDiskBucket(indexOffset, fileNum)\n\t\tidx.bucketLk.RLock()\n\t}\n\tidx.bucketLk.RUnlock()\n")]),
+    dict(id="c06-igc-touches-current-file", props=["C06", "C04"], desc="index GC also reaps the file currently written to",
+         edits=[(IG, "\tfor fileNum := firstFileNum; fileNum != lastFileNum; {", "\tlastFileNum++\n\tfor fileNum := firstFileNum; fileNum != lastFileNum; {")]),
+    dict(id="c06-relocation-unconditional", props=["C06", "C03"], desc="relocation re-points the index without checking the old location",
+         edits=[(ST, "\t\t\tupdated, err := idx.UpdateIf(indexKey, oldBlk, newBlk)\n\t\t\tif err != nil {\n\t\t\t\treturn err\n\t\t\t}\n\t\t\tif !updated {\n\t\t\t\treturn errors.New(\"index does not name the relocated record\")\n\t\t\t}\n\t\t\treturn nil\n", "\t\t\treturn idx.Update(indexKey, newBlk)\n")]),
+]
